@@ -468,5 +468,79 @@ theorem famous_agree {A B : E → Prop} (hA : View A U) (hB : View B U) {r : Int
     FamousIn ps A r x ↔ FamousIn ps B r x :=
   ⟨famous_transfer H hA hB dB, famous_transfer H hB hA dA⟩
 
+/-! ## round received -/
+
+section
+variable (ps)
+
+/-- the condition of `DecideRoundReceived` for event `e` and round `i` in view `V`: every famous
+    witness of `i` has `e` among its ancestors, and they number at least `k` (Babble: a supermajority) -/
+def ReceivedAt (V : E → Prop) (k : Nat) (e : E) (i : Int) : Prop :=
+  (∀ x, FamousIn ps V i x → Anc e x) ∧
+  ∃ L : List E, L.Nodup ∧ (∀ x, x ∈ L ↔ FamousIn ps V i x) ∧ k ≤ L.length
+
+/-- `i` is the round received of `e` in view `V`: all rounds above `e`'s up to `i` are decided, `i`
+    satisfies the condition and no earlier round does -/
+def RoundReceived (V : E → Prop) (k : Nat) (e : E) (i : Int) : Prop :=
+  round ps e < i ∧ (∀ j, round ps e < j → j ≤ i → RoundDecided ps V j) ∧
+  ReceivedAt ps V k e i ∧ ∀ j, round ps e < j → j < i → ¬ ReceivedAt ps V k e j
+end
+
+include H in
+theorem receivedAt_transfer {A B : E → Prop} (hA : View A U) (hB : View B U) {i : Int}
+    (dA : RoundDecided ps A i) (dB : RoundDecided ps B i) {k : Nat} {e : E}
+    (h : ReceivedAt ps A k e i) : ReceivedAt ps B k e i := by
+  obtain ⟨hall, L, hnd, hL, hk⟩ := h
+  refine ⟨fun x hx => hall x ((famous_agree H hA hB dA dB x).mpr hx), L, hnd, ?_, hk⟩
+  intro x; rw [hL x]; exact famous_agree H hA hB dA dB x
+
+include H in
+/-- **round received is the same on every node**: if two views of one fork-free history both
+    assign a round received to an event, it is the same round -/
+theorem round_received_agree {A B : E → Prop} (hA : View A U) (hB : View B U) {k : Nat} {e : E} {i j : Int}
+    (hi : RoundReceived ps A k e i) (hj : RoundReceived ps B k e j) : i = j := by
+  obtain ⟨hri, hdi, hci, hmi⟩ := hi
+  obtain ⟨hrj, hdj, hcj, hmj⟩ := hj
+  rcases Int.lt_trichotomy i j with hlt | heq | hgt
+  · -- B would have received e at i already
+    exfalso
+    have dA := hdi i hri (Int.le_refl _)
+    have dB := hdj i hri (Int.le_of_lt hlt)
+    exact hmj i hri hlt (receivedAt_transfer H hA hB dA dB hci)
+  · exact heq
+  · exfalso
+    have dB := hdj j hrj (Int.le_refl _)
+    have dA := hdi j hrj (Int.le_of_lt hgt)
+    exact hmi j hrj hgt (receivedAt_transfer H hB hA dB dA hcj)
+
+include H in
+/-- **the events received in a round are the same on every node**: if node A gives `e` round
+    received `i`, any node B that has decided the rounds between holds `e` and gives it `i` too -/
+theorem round_received_transfer {A B : E → Prop} (hA : View A U) (hB : View B U) {k : Nat} (hk : 1 ≤ k)
+    {e : E} {i : Int} (hi : RoundReceived ps A k e i)
+    (dB : ∀ j, round ps e < j → j ≤ i → RoundDecided ps B j) : B e ∧ RoundReceived ps B k e i := by
+  obtain ⟨hri, hdi, hci, hmi⟩ := hi
+  have hBi := receivedAt_transfer H hA hB (hdi i hri (Int.le_refl _)) (dB i hri (Int.le_refl _)) hci
+  refine ⟨?_, hri, dB, hBi, ?_⟩
+  · obtain ⟨hall, L, _, hL, hlen⟩ := hBi
+    have hne : L ≠ [] := by intro h; rw [h] at hlen; simp at hlen; omega
+    obtain ⟨x, hx⟩ := List.exists_mem_of_ne_nil _ hne
+    have hf := (hL x).mp hx
+    exact hB.dc _ _ hf.1 (hall x hf)
+  · intro j hj1 hj2 hc
+    exact hmi j hj1 hj2 (receivedAt_transfer H hB hA (dB j hj1 (Int.le_of_lt hj2)) (hdi j hj1 (Int.le_of_lt hj2)) hc)
+
+/-- **an ancestor is received no later than its descendant** (in any one view): blocks never put a
+    descendant's transactions in an earlier block than an ancestor's -/
+theorem round_received_mono {V : E → Prop} {k : Nat} {a e : E} {i j : Int} (h : Anc a e)
+    (hi : RoundReceived ps V k e i) (hj : RoundReceived ps V k a j) : j ≤ i := by
+  obtain ⟨hri, _, ⟨hall, L, hnd, hL, hk⟩, _⟩ := hi
+  obtain ⟨_, _, _, hmj⟩ := hj
+  have hra := round_mono ps h
+  have hca : ReceivedAt ps V k a i := ⟨fun x hx => anc_trans h (hall x hx), L, hnd, hL, hk⟩
+  apply Decidable.byContradiction
+  intro hlt
+  exact hmj i (by omega) (by omega) hca
+
 end
 end Babble.Dag
